@@ -51,6 +51,13 @@ type scope struct {
 
 	// closed is closed when Close has finished disposing the scope
 	closed chan struct{}
+
+	// unreported is the error of a disposal carried out by the cancellation
+	// watcher, which has nobody to return it to. It is written before closed
+	// is closed; a parent scope or the provider that waits for this scope to
+	// be closed takes it over (once) and reports it.
+	unreported      error
+	unreportedTaken int32 // atomic
 }
 
 func newScope(rootProvider *provider, parent *scope, ctx context.Context, cancel context.CancelFunc) (*scope, error) {
@@ -251,11 +258,9 @@ func (s *scope) CreateScope(ctx context.Context) (Scope, error) {
 	// Auto-close on context cancellation
 	go func() {
 		<-ctx.Done()
-		if err := child.Close(); err != nil {
-			// Context cancellation cleanup errors are expected during shutdown
-			// and cannot be meaningfully handled, so we ignore them
-			_ = err
-		}
+		// Nobody receives the result here; a parent scope or the provider
+		// that is closing at the same time picks a disposal error up
+		child.closeUnattended()
 	}()
 
 	return child, nil
@@ -263,19 +268,38 @@ func (s *scope) CreateScope(ctx context.Context) (Scope, error) {
 
 // Close disposes the scope and all its resources
 func (s *scope) Close() error {
+	return s.dispose(false)
+}
+
+// closeUnattended is Close as performed by the cancellation watcher: the error
+// is kept for whoever waits for this scope to be closed.
+func (s *scope) closeUnattended() {
+	_ = s.dispose(true)
+}
+
+// takeUnreported returns, once, the error of a disposal that the cancellation
+// watcher carried out. It must only be called after s.closed has been closed.
+func (s *scope) takeUnreported() error {
+	if s.unreported != nil && atomic.CompareAndSwapInt32(&s.unreportedTaken, 0, 1) {
+		return s.unreported
+	}
+	return nil
+}
+
+func (s *scope) dispose(unattended bool) (err error) {
 	if !atomic.CompareAndSwapInt32(&s.disposed, 0, 1) {
 		return nil // Already closed
 	}
 	defer close(s.closed)
+	if unattended {
+		defer func() { s.unreported = err }()
+	}
 
 	var errs []error
 
-	// Cancel context
-	if s.cancel != nil {
-		s.cancel()
-	}
-
-	// Close all children first
+	// Take over the children before cancelling the context: the cancellation
+	// wakes the watchers of children whose contexts derive from ours, and a
+	// child disposed by its watcher unregisters itself from this scope.
 	s.childrenMu.Lock()
 	children := make([]*scope, 0, len(s.children))
 	for child := range s.children {
@@ -284,6 +308,12 @@ func (s *scope) Close() error {
 	s.children = nil
 	s.childrenMu.Unlock()
 
+	// Cancel context
+	if s.cancel != nil {
+		s.cancel()
+	}
+
+	// Close all children first
 	for _, child := range children {
 		if err := child.Close(); err != nil {
 			errs = append(errs, fmt.Errorf("failed to close child scope: %w", err))
@@ -293,6 +323,11 @@ func (s *scope) Close() error {
 		// cancellation watcher, which may be the one disposing the child. The
 		// child must be completely disposed before we dispose our own instances.
 		<-child.closed
+
+		// The watcher has nobody to report a failed disposal to: report it here
+		if err := child.takeUnreported(); err != nil {
+			errs = append(errs, fmt.Errorf("failed to close child scope: %w", err))
+		}
 	}
 
 	// Dispose all disposable scoped instances in reverse order
